@@ -252,6 +252,16 @@ func checkLedger(prop, tier string) *Report {
 		}
 		rep.Distinct("conserved|" + label)
 		rep.Count("traces_validated_against_impl", 1)
+		// the released coin must be PAID OUT: a "fee credit" booked to the orbiter account itself (or anything else that
+		// leaves part of the coin there) is neither a credit to a recipient nor an amount handed to the route — the only
+		// change the property allows on that account is that what sat there before moves to the dust collector
+		for k, v := range bal {
+			if strings.HasPrefix(k, w.Orb.String()+"|") && !strings.HasPrefix(v, "-") {
+				rep.Violate(Violation{Kind: "released-coin-not-fully-paid-out", Group: group, Sig: sig, Replay: replay(),
+					What: fmt.Sprintf("successful transfer, but %s of %s stayed on the orbiter account: the released coin is not the sum of what was credited to recipients and handed to the route [%s] after %v", v, strings.SplitN(k, "|", 2)[1], label, path),
+					Detail: map[string]any{"balance_delta": bal.String()}})
+			}
+		}
 		if out.Sign() <= 0 {
 			rep.Violate(Violation{Kind: "non-positive-forward", Group: group, Sig: sig, Replay: replay(),
 				What: fmt.Sprintf("successful transfer forwarded %s (must be > 0) [%s]", out, label)})
